@@ -156,6 +156,16 @@ TWINS += [
                ("explorerscript/pygments/expslexer.py", "flags = re.MULTILINE | re.DOTALL", "flags = re.DOTALL | re.MULTILINE")]},
     {"id": "twin-return-addr-none-test", "what": "`x is not None` written as `not (x is None)` in rewrite_offsets",
      "edits": [("explorerscript/source_map.py", "            if m.return_addr is not None:\n", "            if not (m.return_addr is None):\n")]},
+    {"id": "twin-dmode-dict", "what": "the dungeon mode constants are looked up in a dict instead of an if chain",
+     "edits": [("explorerscript/ssb_converting/ssb_data_types.py",
+                "        if isinstance(idx, int):\n            if idx == 0:\n                return self.close_constant\n            if idx == 1:\n                return self.open_constant\n"
+                "            if idx == 2:\n                return self.request_constant\n            if idx == 3:\n                return self.open_and_request_constant\n",
+                "        names = {0: self.close_constant, 1: self.open_constant, 2: self.request_constant, 3: self.open_and_request_constant}\n"
+                "        if isinstance(idx, int) and idx in names:\n            return names[idx]\n")]},
+    {"id": "twin-negatable-local", "what": "_if_header_negatable reads the parameter into a local and uses elif / string concatenation",
+     "edits": [("explorerscript/ssb_converting/decompiler/write_handlers/label_jumps/if_start.py",
+                "        if op.params[param_idx] == 1:\n            return positive_form\n        if op.params[param_idx] == 0:\n            return f\"not {positive_form}\"\n        return self._if_header_as_operation(op)\n",
+                "        value = op.params[param_idx]\n        if value == 1:\n            return positive_form\n        elif value == 0:\n            return \"not \" + positive_form\n        else:\n            return self._if_header_as_operation(op)\n")]},
     {"id": "twin-call-exit-selection", "what": "CallWriteHandler selects the edge after the call with a loop instead of a comprehension",
      "edits": [("explorerscript/ssb_converting/decompiler/write_handlers/label_jumps/call.py",
                 "        if len(exits_after_call) > 0:\n            return exits_after_call[0].target_vertex\n",
